@@ -4,6 +4,7 @@ import (
 	"fmt"
 	"go/token"
 	"go/types"
+	"strings"
 
 	"golang.org/x/tools/go/ssa"
 )
@@ -189,4 +190,190 @@ func c15SortedFlag(c *Ctx, prop string) {
 		}
 	}
 	c.Floor(rule, 2)
+}
+
+// c15DelOne implements C15/C08.del-one on delValue ("Del removes exactly one equal value, or fails without effect"):
+//
+//	(aligned) a value is recognised only as a whole chunk: every success result (nil error) is chosen under the true
+//	          outcome of bytes.Equal between the value to delete and a slice of the stored data whose bounds come from a
+//	          decoded chunk header (binary.LittleEndian.Uint32 on the data, or ReadNextChunk). A raw byte search for the
+//	          serialised chunk (seed c15e) also matches inside another value's bytes.
+//	(one)     once a chunk has matched, no further chunk is examined: from the match branch the chunk decoder is not
+//	          reached again (seed c08f drops every equal chunk).
+func c15DelOne(c *Ctx, rule string) {
+	c.Rule(rule, "A2 on delValue: (aligned) every nil-error result is chosen on an edge dominated by bytes.Equal(header-delimited chunk of data, value) == true; (one) the chunk-header decode is not reachable again from the true side of that comparison")
+	fn := c.Func("dnsdata/rdb", "delValue")
+	c.Examined(fn)
+	if len(fn.Params) < 2 {
+		c.Undecided(rule, "delValue|signature", fn.Pos(), "unexpected signature")
+		return
+	}
+	data, value := fn.Params[0], fn.Params[1]
+	isDecode := func(v ssa.Value) bool {
+		call, _ := callOfValue(v)
+		if call == nil {
+			return false
+		}
+		f := calleeOf(call.Common())
+		if f == nil {
+			return false
+		}
+		return (f.Name() == "Uint32" && f.Pkg() != nil && f.Pkg().Path() == "encoding/binary") || f.Name() == "ReadNextChunk"
+	}
+	var decodes []ssa.Instruction
+	for _, ci := range callInstrs(fn) {
+		if v := valueOfCall(ci); v != nil && isDecode(v) {
+			decodes = append(decodes, ci)
+		}
+	}
+	if len(decodes) == 0 {
+		c.Undecided(rule, "delValue|decoder", fn.Pos(), "no chunk-header decode found (binary.LittleEndian.Uint32 / ReadNextChunk)")
+		return
+	}
+	isChunkMatch := func(v ssa.Value) *ssa.Call {
+		eq := isCallToFunc(v, "bytes", "Equal")
+		if eq == nil {
+			return nil
+		}
+		var hasChunk, hasValue bool
+		for _, a := range eq.Call.Args {
+			fromData, fromHeader, fromValue := false, false, false
+			for x := range backSlice(a, nil) {
+				if x == ssa.Value(data) {
+					fromData = true
+				}
+				if x == ssa.Value(value) {
+					fromValue = true
+				}
+				if isDecode(x) {
+					fromHeader = true
+				}
+			}
+			if fromData && fromHeader {
+				hasChunk = true
+			} else if fromValue && !fromData {
+				hasValue = true
+			}
+		}
+		if hasChunk && hasValue {
+			return eq
+		}
+		return nil
+	}
+	n := 0
+	var matches []*ssa.Call
+	for _, leaf := range resultLeaves(fn, 1) {
+		if !isNilConst(leaf.V) {
+			continue
+		}
+		n++
+		var m *ssa.Call
+		for _, f := range factsAt(leaf.At) {
+			if f.Truth {
+				if eq := isChunkMatch(f.V); eq != nil {
+					m = eq
+				}
+			}
+		}
+		if m != nil {
+			matches = append(matches, m)
+		}
+		c.Check(rule, fmt.Sprintf("delValue|success#%d|whole-chunk-equal", n), m != nil, leaf.V.Pos(), "a value is deleted only where a whole stored chunk compared equal to it")
+	}
+	if n == 0 {
+		c.Undecided(rule, "delValue|success", fn.Pos(), "no nil-error result found")
+	}
+	for i, m := range matches {
+		// the true successor of the branch on m
+		again := false
+		for _, r := range *m.Referrers() {
+			iff, ok := r.(*ssa.If)
+			if !ok {
+				continue
+			}
+			for _, d := range decodes {
+				if reachable(iff.Block().Succs[0], nil)[d.Block()] {
+					again = true
+				}
+			}
+		}
+		c.Check(rule, fmt.Sprintf("delValue|match#%d|stops-the-walk", i+1), !again, m.Pos(), "after the first equal chunk no other chunk is examined (exactly one value goes)")
+	}
+}
+
+// c15FailOnlyOnDel implements C15/C08.fail-only-on-del: "a batch is all its additions, then all its deletions". The only
+// way integrate may fail is a deletion that does not find its value AFTER the additions of that key were applied —
+// i.e. an error handed back by delValue. An error computed from the stored value before the additions (seed c15f: a
+// pre-check of the deletions against the database value) rejects batches that add and delete the same pair.
+func c15FailOnlyOnDel(c *Ctx, rule string) {
+	c.Rule(rule, "A8 provenance in (*Batch).integrate: every non-nil error result derives from the error returned by a delValue call")
+	fn := c.Func("dnsdata/rdb", "(*Batch).integrate")
+	c.Examined(fn)
+	n := 0
+	for _, leaf := range resultLeaves(fn, 0) {
+		if isNilConst(leaf.V) {
+			continue
+		}
+		n++
+		fromDel := false
+		for v := range backSlice(leaf.V, nil) {
+			if call, idx := callOfValue(v); call != nil && idx == 1 {
+				if f := calleeOf(call.Common()); f != nil && f.Name() == "delValue" {
+					fromDel = true
+				}
+			}
+		}
+		// only failures decided inside the per-key loop are about stored values; the consistency check of the two cursors
+		// behind the loop is not
+		inLoop := false
+		for _, l := range rangeLoops(fn, func(v ssa.Value) bool { return v == ssa.Value(fn.Params[1]) }) {
+			if l.Body[leaf.At] {
+				inLoop = true
+			}
+			for _, p := range leaf.At.Preds {
+				if l.Body[p] {
+					inLoop = true
+				}
+			}
+		}
+		dependsOnStored := inLoop
+		c.Check(rule, fmt.Sprintf("%s|error#%d|from-delValue", fnName(fn), n), fromDel || !dependsOnStored, leaf.V.Pos(), "integrate fails because of a stored value only where a deletion, applied after the additions, does not find its value")
+	}
+	c.Floor(rule, 1)
+}
+
+// c15RestoreLatest implements C15.restore-latest: "a restored backup holds the same map" — of the state that was backed
+// up LAST. Restore goes through the engine's restore-from-latest entry point, or, if it restores by backup id, takes
+// the id from the last slot of the backup list (an index derived from the count); a constant slot (seed c15g: slot 0,
+// the OLDEST backup of the directory) restores a stale state as soon as the directory holds two backups.
+func c15RestoreLatest(c *Ctx) {
+	rule := "C15.restore-latest"
+	c.Rule(rule, "A8 in rdb.Restore: the backup engine is asked for RestoreFromLastBackup, or every restore-by-id call takes an id whose provenance includes the backup count (GetCount) — never a constant slot")
+	fn := c.Func("dnsdata/rdb", "Restore")
+	c.Examined(fn)
+	n, ok, why := 0, true, ""
+	for _, ci := range callInstrs(fn) {
+		f := calleeOf(ci.Common())
+		if f == nil || f.Pkg() == nil || !strings.HasSuffix(f.Pkg().Path(), "cgo-rocksdb") || !strings.HasPrefix(f.Name(), "Restore") {
+			continue
+		}
+		n++
+		if f.Name() == "RestoreFromLastBackup" {
+			continue
+		}
+		fromCount := false
+		for _, a := range ci.Common().Args {
+			for v := range backSlice(a, nil) {
+				if call, _ := callOfValue(v); call != nil {
+					if g := calleeOf(call.Common()); g != nil && g.Name() == "GetCount" {
+						fromCount = true
+					}
+				}
+			}
+		}
+		if !fromCount {
+			ok, why = false, fmt.Sprintf("%s at %s restores a backup chosen without regard to the number of backups", f.Name(), c.relPos(ci.Pos()))
+		}
+	}
+	c.Check(rule, fnName(fn)+"|latest-backup", ok && n > 0, fn.Pos(), fmt.Sprintf("%d restore calls; %s", n, why))
 }
